@@ -156,3 +156,6 @@ CFG = {
             'radius >= 1e136 m (c14::tinyphi_class = Fit.tinyphi_class); measured failing region in the comment at '
             'c14::R_CLASS; Coq side: C14_tinyphi_known_witness',
 }
+
+# a run with fewer cases than half of what the quick tier generates today would be a (partly) vacuous differential
+CFG["min_cases"] = 6156
